@@ -10,7 +10,7 @@ from props import c07
 from props.c07 import enc, enc_ctx, enc_registry, enc_argv, show_ctx, flag_of
 
 ID = "C18"
-PROPS = ["Invoke/Props/C18.lean"]
+PROPS = ["Invoke/Props/C18.lean", "Invoke/Props/C18Tables.lean"]
 TARGETS = ["drv_parser"]
 DRIVER_ROOTS = ["Driver/Parser.lean"]
 GENERATED = ["Parser", "Program"]
@@ -30,7 +30,12 @@ RULE = ("metamorphic cases = (namespace, task invocation built by construction, 
         "combined short blocks of 3, 4 and 5 letters (core Booleans, task Booleans, mixed) with one value / optional-value flag "
         "in first, middle or last position, its value as the next token, glued at the end, or absent; before the first task, "
         "at every item boundary inside a task, with a second task and a remainder: the block means the same as its flag-by-flag "
-        "spelling in the same place (incl. refusing both), and an all-core block the same as before the tasks")
+        "spelling in the same place (incl. refusing both), and an all-core block the same as before the tasks. Family SHAPE: "
+        "values containing '=' ('a=b', '=', '=x', 'x=', 'a=b=c', '--k=v', ...) and the explicitly EMPTY value, for task value "
+        "flags whose short name shadows a BOOLEAN core short flag (-d, -e, -p), for an unshadowed task flag and for core value "
+        "flags, in the '=', glued and spaced spellings (every owner x value x spelling at least once), the owner's task first / "
+        "second / third, the item followed by a task name / a flag of the task / a core flag / the end, core flags before the "
+        "tasks or not: value verbatim, every task receives exactly its expected arguments, core values as without the item")
 TRUSTED = ["Lean 4.33 kernel", "axioms propext/Classical.choice/Quot.sound only",
            "harness/props/c18.py metamorphic generator + oracle + canonicalisation", "tools/extractors/parser.py (core argument table)",
            "models Invoke/Model/Parser.lean + Program.lean hand-written, tied by correspondence on every run",
@@ -670,12 +675,154 @@ def oracle_block(nv, case, runs):
     return None, ran
 
 
+# ------------------------------------------------------------------ family: value shapes ('=' inside, empty) for shadowing flags
+
+SHAPE_NS = {"id": "X4", "tasks": [
+    # value flags whose automatic short name is a BOOLEAN core short flag: -d/--debug, -e/--echo, -p/--pty
+    {"name": "build", "params": [["dir", "."], ["keep", False]]},
+    {"name": "deploy", "params": [["env", "dev"], ["path", "/"]]},
+    {"name": "pack", "params": [["e", "none"], ["a", False]]},
+    {"name": "test", "params": [["mode", "lo"]]}]}
+SHAPE_DEFAULTS = {"build": {"dir": ".", "keep": False}, "deploy": {"env": "dev", "path": "/"}, "pack": {"e": "none", "a": False},
+                  "test": {"mode": "lo"}}
+# (where, task, long spelling, short spelling, key)
+SHAPE_OWNERS = [("task", "build", "--dir", "-d", "dir"), ("task", "deploy", "--env", "-e", "env"), ("task", "deploy", "--path", "-p", "path"),
+                ("task", "pack", None, "-e", "e"), ("task", "test", "--mode", "-m", "mode"),
+                ("core", None, "--hide", None, "hide"), ("core", None, "--list-format", "-F", "list-format")]
+EQ_VALUES = ["a=b", "=", "=x", "x=", "a=b=c", "--k=v", "KEY=prod", "/a=b"]
+SHAPE_VALUES = EQ_VALUES + [""]
+# what may stand next to the item: (tokens, task it belongs to | None = core flag, effect on that task's kwargs)
+SHAPE_FILLERS = {"build": (["--keep"], {"keep": True}), "deploy": (["--path", "pp"], {"path": "pp"}), "pack": (["-a"], {"a": True}),
+                 "test": (["--mode=hi"], {"mode": "hi"})}
+SHAPE_OWN_FLAG = {("build", "dir"): (["--keep"], {"keep": True}), ("deploy", "env"): (["--path", "pp"], {"path": "pp"}),
+                  ("deploy", "path"): (["--env", "ee"], {"env": "ee"}), ("pack", "e"): (["-a"], {"a": True})}
+
+
+def shape_forms(lng, sht, v):
+    """every spelling that delivers the value v to the flag: `--long=v`, `-s=v`, glued `-sv` (a glued value cannot start
+    with '=' and cannot be empty), spaced `--long v` / `-s v` (a value given as its own token is never split)"""
+    forms = []
+    if lng:
+        forms += [("eq-long", [lng + "=" + v]), ("spaced-long", [lng, v])]
+    if sht:
+        forms += [("eq-short", [sht + "=" + v]), ("spaced-short", [sht, v])]
+        if v and not v.startswith("="):
+            forms.append(("glued", [sht + v]))
+    return forms
+
+
+def shape_cases(nv, rng, n):
+    """owner x value x spelling, each at least once (the rest of the case drawn at random); then random combinations.
+    Rest of the case: the owner's task is the first / second / third task of the command line; the item is followed by a
+    task name, by a flag (of the task, or a core flag) or by the end; core flags before the tasks or not."""
+    names = [t["name"] for t in nv.ns["tasks"]]
+    must = [(o, v, f) for o in SHAPE_OWNERS for v in SHAPE_VALUES for f in shape_forms(o[2], o[3], v)]
+
+    def draw(o, v, f):
+        where, task, lng, sht, key = o
+        pos = rng.choice([0, 0, 1, 2])
+        follow = rng.choice(["task", "flag", "end"])
+        host = task or rng.choice(names)
+        others = [t for t in names if t != host]
+        rng.shuffle(others)
+        before = others[:pos]
+        after = [others[pos]] if follow == "task" or (follow == "flag" and rng.random() < 0.4) else []
+        placement = "inside"
+        if where == "core" and rng.random() < 0.3:
+            placement, pos, before = "front", 0, []
+        corefollow = follow == "flag" and (where == "core" or (task, key) not in SHAPE_OWN_FLAG or rng.random() < 0.35)
+        return {"kind": "shape", "ns": nv.ns, "where": where, "host": host, "key": key, "value": v, "form": f[0], "toks": f[1],
+                "before": before, "after": after, "follow": follow, "corefollow": corefollow, "placement": placement,
+                "around": rng.choice([[], [], ["-e"], ["--warn-only"]]), "fill": [rng.random() < 0.5 for _ in range(3)]}
+    cases = [draw(o, v, f) for o, v, f in must]
+    while len(cases) < n:
+        o, v, f = rng.choice(must)
+        cases.append(draw(o, v, f))
+    return cases
+
+
+def shape_argv(case):
+    """-> (argv, expected calls [(task, kwargs)], reference argv for the core values: the core flags of argv alone + one task)"""
+    item = case["toks"]
+    argv, want = list(case["around"]), []
+    ref = list(case["around"])
+    if case["placement"] == "front":
+        argv += item
+        if case["follow"] == "flag":
+            argv += ["--pty"]
+            ref += ["--pty"]
+    fill = list(case["fill"])
+
+    def filler(t):
+        kw = dict(SHAPE_DEFAULTS[t])
+        toks = [t]
+        if fill.pop(0):
+            toks += SHAPE_FILLERS[t][0]
+            kw.update(SHAPE_FILLERS[t][1])
+        return toks, kw
+    for t in case["before"]:
+        toks, kw = filler(t)
+        argv += toks
+        want.append((t, kw))
+    host = case["host"]
+    kw = dict(SHAPE_DEFAULTS[host])
+    argv.append(host)
+    ref.append("test")
+    if case["placement"] == "inside":
+        argv += item
+        if case["where"] == "task":
+            kw[case["key"]] = case["value"]
+        if case["follow"] == "flag":
+            if case["corefollow"]:
+                nxt, eff = ["--pty"], {}
+                ref += nxt
+            else:
+                nxt, eff = SHAPE_OWN_FLAG[(host, case["key"])]
+            argv += nxt
+            kw.update(eff)
+    want.append((host, kw))
+    for t in case["after"]:
+        toks, kw2 = filler(t)
+        argv += toks
+        want.append((t, kw2))
+    return argv, want, ref
+
+
+def oracle_shape(nv, case, runs):
+    argv, want, ref = shape_argv(case)
+    for a in (argv, ref):
+        key = json.dumps(a)
+        if key not in runs:
+            runs[key] = run_program(case["ns"], a)
+    r, R = runs[json.dumps(argv)], runs[json.dumps(ref)]
+    v = case["value"]
+    what = "%s value %r for %s given as %r in %r" % (case["where"], v, case["key"], case["toks"], argv)
+    if r["exc"] is not None or r["stage"].get("tasks", "unset") is not None or r["stage"].get("core", "unset") is not None:
+        return "%s was refused (%s, stage %r): an explicitly given value is taken verbatim whatever it contains" % (what, r["exc"], r["stage"])
+    got = [(c["task"], c["kwargs"]) for c in r["calls"]]
+    if got != want:
+        return "%s: tasks received %r, expected %r (value verbatim, the tokens after it intact)" % (what, got, want)
+    core, rcore = dict(r.get("core") or {}), dict(R.get("core") or {})
+    if case["where"] == "core":
+        if core.get(case["key"]) != v:
+            return "%s: core %s = %r, expected %r verbatim" % (what, case["key"], core.get(case["key"]), v)
+        core.pop(case["key"], None)
+        rcore.pop(case["key"], None)
+    if core != rcore:
+        diff = dict((k, (core.get(k), rcore.get(k))) for k in set(core) | set(rcore) if core.get(k) != rcore.get(k))
+        return "%s: core values differ from those of its core flags alone (%r): %r" % (what, ref, diff)
+    if r.get("remainder") != "":
+        return "%s: remainder %r, expected ''" % (what, r.get("remainder"))
+    return None
+
+
 # ------------------------------------------------------------------ family: values that look like the sentinel
 
 DASH_NS = {"id": "X2", "tasks": [
     {"name": "val", "params": [["pos"], ["name", "n"], ["opt", None]], "optional": ["opt"]},
     {"name": "after", "params": [["flag", False]]}]}
 DASH_VALUES = ["--", "-", "---", "--x", "-x=y", "--=", "-- ", "a\nb", "\n"]
+DASH_VALUES_EQ = ["a=b", "=", "=x", "x=", "a=b=c", "--k=v", ""]   # shapes of family SHAPE, here for the optional-value owner too
 
 
 def dash_cases(nv):
@@ -685,17 +832,17 @@ def dash_cases(nv):
               ("core", "--hide", None, "hide"), ("core", "--list-format", "-F", "list-format")]
     cases = []
     for where, lng, sht, key in owners:
-        for v in DASH_VALUES:
+        for v in DASH_VALUES + DASH_VALUES_EQ:
             forms = [[lng + "=" + v]]
             if sht:
                 forms.append([sht + "=" + v])
-                if not v.startswith("="):
-                    forms.append([sht + v])
+                if v and not v.startswith("="):
+                    forms.append([sht + v])     # glued: cannot be empty, cannot start with '=' (that is the '=' spelling)
             if v != "--":
                 forms.append([lng, v])          # spaced: a bare `--` token IS the sentinel, every other value is verbatim
             for form in forms:
                 for placement in (["front", "inside"] if where == "core" else ["inside"]):
-                    for rem in (None, ["r1", "--", "-e"]):
+                    for rem in ((None, ["r1", "--", "-e"]) if v in DASH_VALUES else (None,)):
                         cases.append({"kind": "dashval", "ns": nv.ns, "where": where, "key": key, "value": v, "form": form,
                                       "placement": placement, "rem": rem})
     return cases
@@ -749,6 +896,9 @@ def replay(case):
         return why is None, why or "ok"
     if case.get("kind") == "dashval":
         why = oracle_dash(NsView(case["ns"]), case, {})
+        return why is None, why or "ok"
+    if case.get("kind") == "shape":
+        why = oracle_shape(NsView(case["ns"]), case, {})
         return why is None, why or "ok"
     if case.get("kind") == "listing":
         why = listing_effect(case)
@@ -804,7 +954,7 @@ def run(ctx):
     out = Outcome()
     rng = ctx.rng
     drv = LeanDriver("drv_parser")
-    n_inv = ctx.n(11, 60)
+    n_inv = ctx.n(10, 60)
     for ns in NAMESPACES:
         nv = NsView(ns)
         runs = {}
@@ -863,14 +1013,14 @@ def run(ctx):
                 out.fail(case, why)
         compare_with_model(nv, runs, ctx, out, drv, baseline)
     # same-letter short blocks in different contexts / values that look like the sentinel (each run also goes to the model)
-    for ns, family in ((CROSS_NS, "cross"), (DASH_NS, "dashval"), (BLOCK_NS, "block"), (NAMESPACES[0], "block")):
+    for ns, family in ((CROSS_NS, "cross"), (DASH_NS, "dashval"), (SHAPE_NS, "shape"), (BLOCK_NS, "block"), (NAMESPACES[0], "block")):
         nv = NsView(ns)
         runs = {}
         first = ns["tasks"][1]
         base = run_program(ns, [first["name"]] + (["zed"] * sum(1 for p in first["params"] if len(p) == 1)))
         baseline = base["calls"][0]["snap"] if base["calls"] else dict((k, None) for k in SNAP_KEYS)
         cases = (cross_cases(nv, rng, ctx.n(260, 4000)) if family == "cross" else dash_cases(nv) if family == "dashval"
-                 else block_cases(nv, rng, ctx.n(220, 3000)))
+                 else shape_cases(nv, rng, ctx.n(0, 4000)) if family == "shape" else block_cases(nv, rng, ctx.n(220, 3000)))
         for case in cases:
             if family == "block":
                 why, ran = oracle_block(nv, case, runs)
@@ -887,6 +1037,11 @@ def run(ctx):
                 why, tag = oracle_cross(nv, case, runs)
                 out.hist[tag if why is None else "oracle-failure"] += 1
                 out.case(case, tag == "cross")
+            elif family == "shape":
+                why = oracle_shape(nv, case, runs)
+                shape = "empty" if case["value"] == "" else "with-equals"
+                out.hist["shape:%s:%s:%s:then-%s" % (case["where"], shape, case["form"], case["follow"]) if why is None else "oracle-failure"] += 1
+                out.case(case, True)
             else:
                 why = oracle_dash(nv, case, runs)
                 out.hist["dashval:%s" % case["where"] if why is None else "oracle-failure"] += 1
